@@ -252,15 +252,27 @@ def cut_loops(func, module, summary_hook, which=None, extra_ns=None, cut_for=Fal
             kind = 'while' if isinstance(st, ast.While) else 'for'
             lid = '%s#%s%d' % (func.__name__, kind, k)
             names = [v for v in _stores(st.body) if v in bound]
+            # names first assigned inside the body: bound at every later loop head / exit only if the loop is entered at
+            # least once; they join the havoc'd state only when the entry test is concretely true (recorded by __vp_entry)
+            late = [v for v in _stores(st.body) if v not in bound and kind == 'while']
             test = [st.test] if kind == 'while' else []
             reads = [v for v in _loads(test + st.body) if v in bound and v not in module.__dict__.get('__builtins__', {})]
             T = lambda ns, c: ast.Tuple([ast.Name(v, c) for v in ns], c)
-            hav = ast.Assign([T(names, ast.Store())],
+            pre_stmts = []
+            if kind == 'while':
+                import copy as _copy
+                pre_stmts.append(ast.Expr(ast.Call(ast.Name('__vp_entry', ast.Load()), [ast.Constant(lid), ast.Lambda(
+                    ast.arguments(posonlyargs=[], args=[], kwonlyargs=[], kw_defaults=[], defaults=[]), _copy.deepcopy(st.test))], [])))
+                if late:
+                    pre_stmts.append(ast.Assign([T(late, ast.Store())], ast.Call(ast.Name('__vp_late', ast.Load()), [ast.Constant(lid), ast.Constant(tuple(late))], [])))
+            allnames = names + late
+            hav = ast.Assign([T(allnames, ast.Store())],
                              ast.Call(ast.Name('__vp_havoc', ast.Load()),
-                                      [ast.Constant(lid), ast.Constant(tuple(names)), T(names, ast.Load()),
+                                      [ast.Constant(lid), ast.Constant(tuple(allnames)), T(allnames, ast.Load()),
                                        ast.Constant(tuple(reads)), T(reads, ast.Load())], []))
             back = ast.Expr(ast.Call(ast.Name('__vp_back', ast.Load()),
-                                     [ast.Constant(lid), ast.Constant(tuple(names)), T(names, ast.Load())], []))
+                                     [ast.Constant(lid), ast.Constant(tuple(allnames)), T(allnames, ast.Load())], []))
+            new += pre_stmts
             if kind == 'while':
                 new += [hav, ast.If(st.test, st.body + [back], [])]
             else:
@@ -307,6 +319,27 @@ def cut_loops(func, module, summary_hook, which=None, extra_ns=None, cut_for=Fal
     def exhausted(lid):
         # fork: True = the for-range ran out of iterations (no break), False = one more iteration
         return bool(SymB(z3.Bool('exhausted!' + lid)))
+    class _Unbound:
+        def __repr__(s):
+            return '<unbound before the loop>'
+    UNB = _Unbound()
+
+    def entry(lid, thunk):
+        rec = LOOPS.setdefault(lid, {})
+        try:
+            v = thunk()
+            rec['entry_test'] = True if v is True else (False if v is False else 'symbolic')
+        except EngineError:
+            raise
+        except Exception:
+            rec['entry_test'] = 'symbolic'
+
+    def late_names(lid, names):
+        if LOOPS.get(lid, {}).get('entry_test') is not True:
+            raise EngineError('loop %s assigns %r first inside its body but is not known to be entered' % (lid, names))
+        return tuple(UNB for _ in names) if len(names) > 1 else (UNB,)
+    ns['__vp_entry'] = entry
+    ns['__vp_late'] = late_names
     ns['__vp_havoc'] = havoc
     ns['__vp_back'] = back
     ns['__vp_exhausted'] = exhausted
